@@ -83,6 +83,10 @@ fn run_case(case: &Value, root: &Path) -> Value {
     if base_kind == "trailing-slash" {
         base_str.push('/');
     }
+    if base_kind == "dotdot" {
+        // the library path as `library.path = "../lib"` gives it: <cwd>/../lib, not normalised
+        base_str = format!("{}/../lib", base_str);
+    }
     let mut c = Client::start_on_path(&base_str, Default::default());
     let mut id = 0i64;
     let turi = furl(&target);
